@@ -49,8 +49,9 @@ def liesel_update_state_obligations(ctx, ci, rule="C03.R3"):
     ps = [p for p in us.params() if p != "self"]
     pos_p, ms_p = n(ps[0]), n(ps[1])
     # order of the effects on the private model
-    events = []  # (kind, index in program order, node, cond)
-    for loc, val, node, cond in res.stores:
+    events = []  # (kind, evaluation order, node, cond)
+    for i_s, (loc, val, node, cond) in enumerate(res.stores):
+        when = res.stores.ticks[i_s]
         if any(x == M for x in subterms(loc)):
             kind = "other_store"
             if loc == ("a", M, "state"):
@@ -61,18 +62,18 @@ def liesel_update_state_obligations(ctx, ci, rule="C03.R3"):
                 kind = "assign"
             elif loc[0] == "a" and loc[2] == "auto_update":
                 kind = "auto_update"
-            events.append((kind, node.lineno, node, cond, loc, val))
-    for t, node, cond in res.calls:
+            events.append((kind, when, node, cond, loc, val))
+    for i_c, (t, node, cond) in enumerate(res.calls):
         if t[0] == "call" and t[1][0] == "a" and t[1][1] == M and t[1][2] == "update":
             events.append(("update_full" if not t[2] and not t[3] else "update_targeted",
-                           node.lineno, node, cond, t, None))
+                           res.calls.ticks[i_c], node, cond, t, None))
     events.sort(key=lambda e: e[1])
     kinds = [e[0] for e in events]
     ow = [e for e in events if e[0] == "state_overwrite"]
     ok = len(ow) == 1 and not ow[0][3] and events and events[0][0] == "state_overwrite"
     # nothing reads self._model before the overwrite
-    first_use_line = min([node.lineno for t, node, _ in res.calls
-                          if any(x == M for x in subterms(t))] + [10 ** 9])
+    first_use_line = min([res.calls.ticks[i_c] for i_c, (t, node, _) in enumerate(res.calls)
+                          if any(x == M for x in subterms(t))] + [10 ** 12])
     ok = ok and (not ow or ow[0][1] <= first_use_line)
     ctx.ob(rule, us, "the whole state of the private model is overwritten with the given "
                      "model_state before anything else touches the model (no dependence on "
@@ -262,13 +263,18 @@ def check(ctx):
         sts = [(loc, val, cond) for loc, val, _, cond in re_.stores if loc[0] == "s"
                and loc[2] == key_t]
         ok = False
+        want1 = ("a", ("s", ms_p, key_t), "value")
+        want2 = ("a", ("s", ms_p, ("a", ("a", ("s", ("a", ("a", SELF, "_model"), "vars"), key_t),
+                                         "value_node"), "name")), "value")
         if len(sts) == 2:
             (l1, v1, c1), (l2, v2, c2) = sts
-            ok = (v1 == ("a", ("s", ms_p, key_t), "value")
-                  and v2 == ("a", ("s", ms_p, ("a", ("a", ("s", ("a", ("a", SELF, "_model"),
-                                                                 "vars"), key_t),
-                                                    "value_node"), "name")), "value")
+            ok = (v1 == want1 and v2 == want2
                   and any(a[0] == "except" and "KeyError" in pretty(a) for a, _ in c2))
+        elif len(sts) == 1 and sts[0][1][0] == "phi":
+            # the same lookup written as a function that returns from `try` / `except`
+            _, cnd, on_exc, normal = sts[0][1]
+            ok = (cnd[0] == "except" and "KeyError" in pretty(cnd) and normal == want1
+                  and on_exc == want2)
         ctx.ob("C03.R4", ep, "extract_position reads model_state[key] (node name) first and "
                              "falls back to the value node of the variable of that name",
                ok, detail=str([short(v) for _, v, _ in sts]), stmt="extract order")
